@@ -225,18 +225,20 @@ AfterComplete(S, t, s0) ==
       wa == Pol(t).waitAfter > 0 /\ ~r0.waSkip
       r1 == IF wa THEN [r0 EXCEPT !.state = "DELAYED", !.waSkip = TRUE] ELSE r0
       j1 == IF wa THEN <<PJob("complete", t, now + Pol(t).waitAfter, s0)>> ELSE <<>>
+      \* fail-on: a task that is SUCCESS (not one that wait-after has just postponed) becomes ERROR
+      r1f == IF r1.state = "SUCCESS" /\ Pol(t).failOn THEN [r1 EXCEPT !.state = "ERROR"] ELSE r1
       \* retry: only for a task that is (still) in a final state; the counter is taken out of the context and put back
       \* (incremented) only if another attempt follows
-      applies == Pol(t).retry > 0 /\ r1.state \in {"SUCCESS", "ERROR"}
+      applies == Pol(t).retry > 0 /\ r1f.state \in {"SUCCESS", "ERROR"}
       \* (continue-on / break-on: a failed attempt is repeated unless break-on is true or continue-on is false; a successful one only
       \*  if continue-on is true)
-      repeatable == \/ (r1.state = "ERROR" /\ Pol(t).breakOn # "true" /\ Pol(t).contOn # "false")
-                    \/ (r1.state = "SUCCESS" /\ Pol(t).contOn = "true")
-      again == applies /\ repeatable /\ r1.retryNo < Pol(t).retry
+      repeatable == \/ (r1f.state = "ERROR" /\ Pol(t).breakOn # "true" /\ Pol(t).contOn # "false")
+                    \/ (r1f.state = "SUCCESS" /\ Pol(t).contOn = "true")
+      again == applies /\ repeatable /\ r1f.retryNo < Pol(t).retry
       \* (when no further attempt follows the policy removes the counter from its in-memory context only - nested changes of
       \*  the runtime context are not persisted without touch_runtime_context() - the stored counter stays)
-      r2 == IF ~again THEN r1
-            ELSE [r1 EXCEPT !.retryNo = @ + 1, !.state = IF IsJoin(t) THEN "WAITING" ELSE "DELAYED"]
+      r2 == IF ~again THEN r1f
+            ELSE [r1f EXCEPT !.retryNo = @ + 1, !.state = IF IsJoin(t) THEN "WAITING" ELSE "DELAYED"]
       j2 == IF again THEN <<PJob(IF IsJoin(t) THEN "refresh" ELSE "continue", t, now + Pol(t).delay, "")>> ELSE <<>>
   IN [row |-> r2, jobs |-> j1 \o j2, again |-> again]
 \* Task.complete(state): ignored for a completed task; the policies may postpone the completion (DELAYED: nothing else
@@ -348,13 +350,17 @@ PtqStep(b) ==
 
 \* the policies before a start, in this order: wait-before - DELAYED + _continue_task, no action yet; timeout -
 \* _fail_task_if_incomplete is armed whether or not the task was delayed; concurrency - the limit goes into the runtime context
+\* (pause-before comes first: the task goes back to IDLE and the execution is paused - pause_workflow acts on a RUNNING execution
+\*  only; wait-before then finds the task IDLE and does nothing; the task is started by the resume of the execution)
 BeforeStart(S, t) ==
-  LET wb == Pol(t).waitBefore > 0 /\ ~S.tk[t].wbSkip
-      S1 == IF wb THEN [S EXCEPT !.tk[t].state = "DELAYED", !.tk[t].wbSkip = TRUE,
+  LET pb == Pol(t).pauseBefore
+      wb == ~pb /\ Pol(t).waitBefore > 0 /\ ~S.tk[t].wbSkip
+      S1 == IF pb THEN [S EXCEPT !.tk[t].state = "IDLE", !.wf = IF @ = "RUNNING" THEN "PAUSED" ELSE @, !.hist.paused = @ \/ (S.wf = "RUNNING")]
+            ELSE IF wb THEN [S EXCEPT !.tk[t].state = "DELAYED", !.tk[t].wbSkip = TRUE,
                                  !.newjobs = Append(@, PJob("continue", t, now + Pol(t).waitBefore, ""))]
             ELSE [S EXCEPT !.tk[t].state = "RUNNING"]
       S2 == IF Pol(t).timeout > 0 THEN [S1 EXCEPT !.newjobs = Append(@, PJob("timeout", t, now + Pol(t).timeout, ""))] ELSE S1
-  IN [S |-> [S2 EXCEPT !.tk[t].conc = Pol(t).conc], wb |-> wb]
+  IN [S |-> [S2 EXCEPT !.tk[t].conc = Pol(t).conc], wb |-> wb \/ pb]
 \* task_handler.run_task
 HandleStartTask(m) ==
   LET t == m.t IN
@@ -662,11 +668,15 @@ CompleteAfterAllM == \A x \in Names : (IsItems(x) /\ hist.reruns = 0 /\ tk[x].st
                         /\ (wf \notin Final \/ tk[x].state = "SUCCESS") => {ax[x][k].i : k \in {j \in 1..Len(ax[x]) : ax[x][j].a}} = 0..(Pol(x).items - 1)
                         /\ (wf \notin Final) => ((tk[x].state = "ERROR") <=> \E k \in 1..Len(ax[x]) : ax[x][k].a /\ ax[x][k].s = "ERROR")
 \* C08: at rest a task with a retry policy (and no timeout) ends in the state of its last attempt; no attempt after a success
-FinalIffLastM == Quiet => \A x \in Names : (Pol(x).retry > 0 /\ Pol(x).timeout = 0 /\ Done(tk[x].state) /\ ax[x] # <<>>
+FinalIffLastM == Quiet => \A x \in Names : (Pol(x).retry > 0 /\ ~Pol(x).failOn /\ Pol(x).timeout = 0 /\ Done(tk[x].state) /\ ax[x] # <<>>
                                                /\ ~KF_Rearmed /\ ~hist.delayedRestart /\ ~KF_DoubleStart /\ tk[x].state # "SKIPPED")
                                => ((tk[x].state = "SUCCESS") <=> (ax[x][Len(ax[x])].s = "SUCCESS"))
-StopAtFirstSuccessM == \A x \in Names : (Pol(x).retry > 0 /\ Pol(x).contOn = "none" /\ ~KF_Rearmed /\ ~hist.delayedRestart /\ ~KF_DoubleStart /\ ~hist.timeoutRetry)
+StopAtFirstSuccessM == \A x \in Names : (Pol(x).retry > 0 /\ ~Pol(x).failOn /\ Pol(x).contOn = "none" /\ ~KF_Rearmed /\ ~hist.delayedRestart /\ ~KF_DoubleStart /\ ~hist.timeoutRetry)
                           => \A k \in 1..Len(ax[x]) : ax[x][k].s = "SUCCESS" => k = Len(ax[x])
+\* C08: fail-on - a task with fail-on never ends SUCCESS; pause-before - the action of such a task is not started before the
+\* execution has been PAUSED for it (hist.paused) - modulo the double start after resume
+FailOnAppliedM == \A x \in Names : Pol(x).failOn => tk[x].state # "SUCCESS"
+PauseBeforeM == \A x \in Names : (Pol(x).pauseBefore /\ ~IsJoin(x) /\ ax[x] # <<>>) => hist.paused
 \* C04: a join starts (its first action appears) only when enough inbound tasks completed and routed to it
 JoinGateM == [][\A x \in Names : (IsJoin(x) /\ Len(ax[x]) = 0 /\ Len(ax'[x]) = 1) =>
                    LET fed == {i \in Inbound(x) : Done(tk'[i].state) /\ x \in tk'[i].next}
@@ -674,7 +684,8 @@ JoinGateM == [][\A x \in Names : (IsJoin(x) /\ Len(ax[x]) = 0 /\ Len(ax'[x]) = 1
 \* C03 / C11: finished executions stay finished; a result is recorded once; SUCCESS tasks stay SUCCESS (modulo re-arming)
 FinishedFrozenM == [][(wf \in Final /\ ~IsRerunStep) => (wf' = wf)]_vars
 ResultOnceM == [][\A x \in Names : \A k \in 1..Len(ax[x]) : ax[x][k].s \in Final => (Len(ax'[x]) >= k /\ ax'[x][k].s = ax[x][k].s)]_vars
-SuccessStickyM == [][\A x \in Names : tk[x].state = "SUCCESS" => (tk'[x].state = "SUCCESS" \/ hist'.rearmed)]_vars
+\* (a task started twice after resume - KF-C10-5 - may be restarted by the stale _continue_task job of its other start)
+SuccessStickyM == [][\A x \in Names : tk[x].state = "SUCCESS" => (tk'[x].state = "SUCCESS" \/ hist'.rearmed \/ (hist'.existingSent /\ (Pol(x).retry > 0 \/ Pol(x).waitBefore > 0)))]_vars
 \* C03: the execution's state changes only along the documented lifecycle
 LegalPairs == {<<"none", "RUNNING">>, <<"RUNNING", "PAUSED">>, <<"RUNNING", "SUCCESS">>, <<"RUNNING", "ERROR">>,
                <<"RUNNING", "CANCELLED">>, <<"PAUSED", "RUNNING">>, <<"PAUSED", "CANCELLED">>, <<"PAUSED", "ERROR">>}
